@@ -343,7 +343,7 @@ class Check:
             open(alt, 'w').write(open(os.path.join(hd, 'go.mod')).read().replace('=> /repo', '=> ' + REPO))
             shutil.copy(os.path.join(hd, 'go.sum'), os.path.join(self.build, 'alt.sum'))
             modflag = ['-modfile=' + alt]
-        rc, out, err, dt = run(['go', 'build'] + modflag + ['-tags', 'verif', '-overlay', ov, '-o', exe, './cmd/' + self.harness], cwd=hd, timeout=1500)
+        rc, out, err, dt = run(['go', 'build'] + modflag + self.meta.get('go_build_flags', []) + ['-tags', 'verif', '-overlay', ov, '-o', exe, './cmd/' + self.harness], cwd=hd, timeout=1500)
         self.go_build_s = dt
         if rc != 0:
             self.problems.append('harness no longer builds against /repo (correspondence broken): ' + ' '.join((out + err).split())[-600:])
